@@ -67,7 +67,7 @@ def run(ctx):
               "diagonal in {False, True} (diagonal_c in 0.1, 1, 10): full variant: fitted M is PSD (exact LDL^T of M + 1e-9 "
               "max|M| I) and sum over similar pairs of v^T M v <= 1.01 * t with t = (sum v^T A_init v)/100 recomputed on "
               "rationals from the pairs and the initial matrix the implementation started from; the initial matrix is the "
-              "documented one; diagonal variant: M diagonal with non-negative entries, or ValueError, never NaN.")
+              "documented one; the same with max_proj just above what the first projection needs (similar pairs along one direction); diagonal variant: M diagonal with non-negative entries, or ValueError, never NaN.")
   ctx.trusted = ["Coq 8.16.1 kernel + vm_compute", "model Model/MMC.v (outer loop over abstract oracles)",
                  "oracle: numpy eigh inside the projection"]
   ok = ctx.build_property()
@@ -143,6 +143,46 @@ def run(ctx):
       recs.append(dict(kind='full', inp=inp, M=M, A0=A0, vs=vs))
     ctx.seen((name, repr(sorted(opt.items())), i), True)
     ctx.sample(dict(estimator=name, params=opt, M=M.tolist()), limit=3)
+  # ---- small projection budgets: max_proj just large enough for ONE projection to converge (the property's
+  # hypothesis), decided by the independent evaluation above with a 10% margin; similar pairs that all differ along
+  # one direction make the first projection cheap while later ones need more steps
+  from metric_learn import MMC
+  for i in range(30 if thorough else 10):
+    d = int(rng.integers(2, 5))
+    npos, nneg = int(rng.integers(3, 9)), int(rng.integers(4, 10))
+    X = fits.grid(rng.standard_normal((2 * (npos + nneg), d)) * 2.0, 6)
+    if i % 3 != 2:
+      u = fits.grid(rng.standard_normal(d), 4)
+      if not np.any(u):
+        u[0] = 1.0
+      for j in range(npos):
+        X[2 * j + 1] = X[2 * j] + float(rng.choice([0.5, 1.0, 1.5, -2.0])) * u
+    pairs = X.reshape(-1, 2, d)
+    yy = np.array([1] * npos + [-1] * nneg)
+    initk = ['identity', 'array'][i % 2]
+    A0 = np.eye(d) if initk == 'identity' else fits.spd_array(rng, d)
+    vs = pairs[:npos, 0] - pairs[:npos, 1]
+    need = first_projection_converges(np.array(A0, dtype=float), vs, 400)
+    ctx.count('small_max_proj', 1)
+    if need is None:
+      ctx.count('small_max_proj', 0, skipped=1)
+      continue
+    mp = int(np.ceil(need / 0.9)) + int(rng.integers(1, 4))
+    kw = dict(max_iter=int(rng.choice([5, 30, 100])), max_proj=mp, init=A0 if initk == 'array' else 'identity', tol=1e-3)
+    opt = {k: (v if not isinstance(v, np.ndarray) else 'ndarray') for k, v in kw.items()}
+    inp = dict(estimator='MMC', params=opt, pairs=pairs.tolist(), y=yy.tolist(), init=np.asarray(A0).tolist(),
+               steps_needed_by_first_projection=need)
+    ctx.hist('small_max_proj.max_proj', mp)
+    try:
+      with warnings.catch_warnings():
+        warnings.simplefilter('ignore')
+        e = MMC(**kw).fit(pairs, yy)
+    except Exception as ex:
+      ctx.fail_input('fit_runs', 'MMC raises %s' % type(ex).__name__, inp, observed=str(ex)[:200])
+      continue
+    M = e.get_mahalanobis_matrix()
+    terms.append("(c14_full %s %s %s)" % (gmat(M, qdy), gmat(np.array(A0, dtype=float), qdy), gmat(vs, qdy)))
+    recs.append(dict(kind='full', inp=inp, M=M, A0=np.array(A0, dtype=float), vs=vs))
   if ok:
     res = ctx.run_cases('c14', HEADER, terms, per_file=10)
     for r, rec in zip(res, recs):
